@@ -5,12 +5,12 @@ from __future__ import annotations
 
 from fractions import Fraction
 
-from mi_common import est_line, gen_pair, impl_mi, kernel_key, tol
+from mi_common import VIEW_MODES, est_line, gen_pair, gen_series, impl_mi, impl_mi_views, kernel_key, series_views, tol
 from vp_common import Atom, Ctx, line, run_driver
 
 PROP = 'C02'
 RULE = ('C01 pair families (30% equal-sum / equal-histogram non-identical pairs) x injective relabelings of either or both sides '
-        '(random permutation of the used codes, +offset, order reversal, sparse injection below 2^20), cc on and off; plus batch '
+        '(random permutation of the used codes, +offset, order reversal, sparse injection below 2^20), cc on and off; a fifth of the pairs handed in as overlapping VIEWS of one buffer (same start address, lags, matrix row/column) and compared with their relabeling on fresh arrays; plus batch '
         'HISTORIES through mixed_rank_graph (string columns whose vocabulary grows past 255 over 2-3 batches of one process): every '
         'batch must score like its own columns under first-occurrence coding. '
         'Non-trivial = both sides non-constant and Y != X; distinct = distinct (partition structure, relabeling kind, cc).')
@@ -60,6 +60,24 @@ def make_case(rng, thorough):
     return {'family': fam, 'Y': Y, 'X': X, 'Y2': Y2, 'X2': X2, 'kind': kind, 'side': side, 'cc': cc}
 
 
+def make_view_case(rng):
+    """the pair as two VIEWS of one buffer (same start address with other strides, lags, a matrix row and column): different
+    vectors stay different vectors – the self-pair handling is about element-wise identity, not about where the arrays live"""
+    for _ in range(50):
+        series, mode = gen_series(rng), rng.choice(VIEW_MODES)
+        Yv, Xv = series_views(series, mode)
+        Y, X = Yv.tolist(), Xv.tolist()
+        if Y != X and len(X) >= 1:
+            break
+    kind = rng.choice(['perm', 'offset', 'reverse', 'sparse'])
+    my, mx = relabel(rng, Y, kind), relabel(rng, X, rng.choice(['perm', 'offset', 'reverse', 'sparse']))
+    Y2, X2 = [my[y] for y in Y], [mx[x] for x in X]
+    if Y2 == X2:
+        Y2 = [y + 1 + max(X2) for y in Y2]
+    return {'family': 'views/' + mode, 'Y': Y, 'X': X, 'Y2': Y2, 'X2': X2, 'kind': kind, 'side': 'both', 'cc': rng.random() < 0.7,
+            'series': series, 'mode': mode}
+
+
 def evaluate(ctx: Ctx, cases, oracle_only=False):
     req = []
     for c in cases:
@@ -81,10 +99,11 @@ def evaluate(ctx: Ctx, cases, oracle_only=False):
         ctx.count('cc' if c['cc'] else 'plain')
         if len(set(Y)) > 1 and len(set(X)) > 1 and Y != X:
             ctx.nontrivial.add((hash(kernel_key(Y, X)), c['kind'], c['side'], c['cc']))
-        a = impl_mi(Y, X, 1.0, c['cc'])
+        a = impl_mi_views(c['series'], c['mode'], 1.0, c['cc'])[0] if 'series' in c else impl_mi(Y, X, 1.0, c['cc'])
         b = impl_mi(c['Y2'], c['X2'], 1.0, c['cc'])
         short = (f'family={c["family"]} n={n} cc={c["cc"]} Y={Y[:12]}{"…" if n > 12 else ""} X={X[:12]}{"…" if n > 12 else ""} '
-                 f'relabel={c["kind"]}/{c["side"]} sumY={sum(Y)} sumX={sum(X)}')
+                 f'relabel={c["kind"]}/{c["side"]} sumY={sum(Y)} sumX={sum(X)}' +
+                 (f' [Y and X handed in as views ({c["mode"]}) of one int32 buffer {c["series"][:12]}…; the relabeled pair as fresh arrays]' if 'series' in c else ''))
         if not oracle_only:
             ctx.traces += 1
             if not abs(a - model) <= t:
@@ -194,7 +213,7 @@ def corpus():
 
 def run(ctx: Ctx):
     n = 5000 if ctx.thorough() else 700
-    evaluate(ctx, corpus() + [make_case(ctx.rng, ctx.thorough()) for _ in range(n)])
+    evaluate(ctx, corpus() + [make_case(ctx.rng, ctx.thorough()) for _ in range(n)] + [make_view_case(ctx.rng) for _ in range(n // 5)])
     evaluate_batches(ctx, [gen_batches(ctx.rng) for _ in range(60 if ctx.thorough() else 8)])
 
 
@@ -209,6 +228,6 @@ def replay(ctx: Ctx, payload):
 def search(ctx: Ctx):
     sub = Ctx(ctx.prop, ctx.tier)
     sub.rng.seed(f'search:{ctx.seed}')
-    evaluate(sub, [make_case(sub.rng, False) for _ in range(3000)], oracle_only=True)
+    evaluate(sub, [make_case(sub.rng, False) for _ in range(3000)] + [make_view_case(sub.rng) for _ in range(800)], oracle_only=True)
     evaluate_batches(sub, [gen_batches(sub.rng) for _ in range(40)], oracle_only=True)
     return sub.oracle_failures
